@@ -94,6 +94,9 @@ def run(rep, tier):
         for n in names:
             fn = u.fn(n)
             memsafe.short_circuit_rule(rep, fn)
+            memsafe.stale_bound_rule(rep, fn)
+            memsafe.unguarded_write_rule(rep, fn)
+            memsafe.tail_fill_rule(rep, fn)
             ban_rule(rep, fn)
         if lab.endswith("bt_encode.c"):
             recursion_rule(rep, u)
